@@ -6,7 +6,7 @@ sys.path.insert(0, os.path.join(VERIF, "tools"))
 from propcfg import PROPS, HOOK_COMMITS
 
 props = [json.loads(l) for l in open(os.path.join(VERIF, "properties.jsonl"))]
-claimed = sorted(k for k in PROPS if PROPS[k].get("rule") != "TODO")
+claimed = sorted(k for k in PROPS if PROPS[k].get("rule") not in ("TODO", "tbd"))
 m = {
     "version": 1,
     "setup_cmd": "./setup.sh",
